@@ -567,3 +567,97 @@ Proof.
   intros F h (g & Hg & HI & AG & Hfr & HF). exists g. split; [exact Hg|]. split; [eapply hinv_same; eauto|].
   split; [|split; assumption]. destruct AG as [L C]. constructor; [exact L|exact C].
 Qed.
+
+(* ---- the dispatch functions, by mutual induction on the fuel ---- *)
+Definition parent_framed (F : list nat) (h : heap) (w : positive) : Prop :=
+  exists c, findw h w = Some c /\ forall p, w_parent c = Some p -> In (idx p) F.
+
+Definition S_all (f : nat) : Prop :=
+  (forall o F h, good F h -> dok F (run_op fixed f o h)) /\
+  (forall l F h, good F h -> dok F (run_ops fixed f l h)) /\
+  (forall w hs F h, good F h -> In (idx w) F -> dok F (run_key_handlers fixed f w hs h)) /\
+  (forall w hs t u F h, good F h -> In (idx w) F -> dok F (run_mouse_handlers fixed f w hs t u h)) /\
+  (forall w F h, good F h -> parent_framed F h w -> dok F (handle_key fixed f w h)) /\
+  (forall w st kids F h, good F h -> In (idx w) F -> dok F (key_kids fixed f w st kids h)) /\
+  (forall w t i u F h, good F h -> parent_framed F h w -> dok F (handle_mouse fixed f w t i u h)) /\
+  (forall w kids t i u F h, good F h -> In (idx w) F -> dok F (mouse_kids fixed f w kids t i u h)) /\
+  (forall t F h, good F h -> findw h root <> None -> t <> MDrag -> dok F (on_term_mouse fixed f t h)).
+
+Lemma text_run_op : forall f o, text (run_op fixed f o).
+Proof. intros. apply (text_all f). Qed.
+Lemma text_run_ops : forall f l, text (run_ops fixed f l).
+Proof. intros. apply (text_all f). Qed.
+Lemma text_keyh : forall f w hs, text (run_key_handlers fixed f w hs).
+Proof. intros. apply (text_all f). Qed.
+Lemma text_mouseh : forall f w hs t u, text (run_mouse_handlers fixed f w hs t u).
+Proof. intros. apply (text_all f). Qed.
+Lemma text_hkey : forall f w, text (handle_key fixed f w).
+Proof. intros. apply (text_all f). Qed.
+Lemma text_kkids : forall f w s k, text (key_kids fixed f w s k).
+Proof. intros. apply (text_all f). Qed.
+Lemma text_hmouse : forall f w t i u, text (handle_mouse fixed f w t i u).
+Proof. intros. apply (text_all f). Qed.
+Lemma text_mkids : forall f w k t i u, text (mouse_kids fixed f w k t i u).
+Proof. intros. apply (text_all f). Qed.
+Lemma text_otm : forall f t, text (on_term_mouse fixed f t).
+Proof. intros. apply (text_all f). Qed.
+#[local] Hint Resolve text_run_op text_run_ops text_keyh text_mouseh text_hkey text_kkids text_hmouse text_mkids text_otm : core.
+
+Lemma mtype_eq_drag : forall t : mtype, t = MDrag \/ t <> MDrag.
+Proof. intro t. destruct t; (left; reflexivity) || (right; discriminate). Qed.
+
+(* an event is logged: the discipline has nothing to say about it *)
+Lemma good_logged : forall F h o, good F h -> (forall g, estep g o = Some g) ->
+  good F (mkHeap (wins h) (reqs h) (rx h) (nextw h) (nextq h) (dlog h) (uninit_seen h) (o :: tr h)).
+Proof.
+  intros F h o (g & Hg & HI & AG & Hfr & HF) Hs. exists g.
+  split; [rewrite (echeck_logged h (mkHeap (wins h) (reqs h) (rx h) (nextw h) (nextq h) (dlog h) (uninit_seen h) (o :: tr h)) o g Hg eq_refl), Hs; reflexivity|].
+  split; [apply hinv_log; exact HI|].
+  split; [|split; assumption]. destruct AG as [L C]. constructor; [exact L|exact C].
+Qed.
+
+Lemma good_root_framed : forall F h, good F h -> findw h root <> None -> parent_framed F h root.
+Proof.
+  intros F h (g & _ & HI & _) Hl. destruct (live_some h root Hl) as [c Hc]. exists c. split; [exact Hc|].
+  intros p Hp. rewrite (hi_root_parent [] h HI c Hc) in Hp. discriminate.
+Qed.
+
+Lemma step_run_ops : forall f, S_all f -> forall l F h, good F h -> dok F (run_ops fixed (S f) l h).
+Proof.
+  intros f (S1 & S2 & _) l F h G. rewrite run_ops_F. destruct l as [|o l']; [apply dok_ret; exact G|].
+  eapply dok_bind; [apply S1; exact G|auto|]. intros _ h1 _ G1. apply S2. exact G1.
+Qed.
+
+Lemma step_run_op : forall f, S_all f -> forall o F h, good F h -> dok F (run_op fixed (S f) o h).
+Proof.
+  intros f SA o F h G.
+  destruct (event_free_op o) eqn:Hef.
+  { pose proof (good_client (S f) o F h G Hef) as H. unfold dok. destruct (run_op fixed (S f) o h); auto. }
+  destruct SA as (_ & _ & _ & _ & S5 & _ & _ & _ & S9).
+  rewrite run_op_F. destruct o; cbn in Hef; try discriminate.
+  - (* OKey *)
+    unfold bind at 1. cbn [log_op].
+    set (h1 := mkHeap (wins h) (reqs h) (rx h) (nextw h) (nextq h) (dlog h) (uninit_seen h) (OKey :: tr h)).
+    assert (G1 : good F h1) by (apply good_logged; [exact G|reflexivity]).
+    unfold bind at 1. unfold root_bound at 1. destruct (PM.mem 1%positive (wins h1)) eqn:Em; [|apply dok_ret; exact G1].
+    assert (Hl : findw h1 root <> None).
+    { unfold findw. apply PM.mem_2 in Em. destruct Em as [c Hc]. apply PM.find_1 in Hc. unfold root. congruence. }
+    eapply dok_bind; [apply S5; [exact G1|apply good_root_framed; assumption]|intro; apply text_ret|].
+    intros _ h2 _ G2. apply dok_ret. exact G2.
+  - (* OMouse *)
+    unfold bind at 1. cbn [log_op].
+    set (h1 := mkHeap (wins h) (reqs h) (rx h) (nextw h) (nextq h) (dlog h) (uninit_seen h) (OMouse t :: tr h)).
+    assert (T : text (b <- root_bound ;; if b then on_term_mouse fixed f t else ret tt)).
+    { apply text_bind; [apply ktr_text, ktr_root_bound|]. intros []; [auto|apply text_ret]. }
+    destruct (mtype_eq_drag t) as [->|Hnd].
+    + (* a drag event: outside the discipline *)
+      apply dok_ill; [exact T|]. destruct G as (g & Hg & _). unfold ill.
+      rewrite (echeck_logged h h1 (OMouse MDrag) g Hg eq_refl). reflexivity.
+    + assert (G1 : good F h1) by (apply good_logged; [exact G|intro g; destruct t; congruence || reflexivity]).
+      unfold bind at 1. unfold root_bound at 1. destruct (PM.mem 1%positive (wins h1)) eqn:Em; [|apply dok_ret; exact G1].
+      assert (Hl : findw h1 root <> None).
+      { unfold findw. apply PM.mem_2 in Em. destruct Em as [c Hc]. apply PM.find_1 in Hc. unfold root. congruence. }
+      apply S9; assumption.
+  - cbn. right. exact G.
+  - cbn. right. exact G.
+Qed.
